@@ -233,6 +233,7 @@ func Bubble(t *testing.T, keepLog bool, f func(s *Sim)) (leak bool, panicVal any
 	// simultaneously runnable goroutines proceed and with it the event log
 	// (measured: 1-4 % of fbbsim runs diverged between executions before this).
 	// The memory limit keeps a runaway run from exhausting the machine.
+	petWatchdog()
 	old := debug.SetGCPercent(-1)
 	debug.SetMemoryLimit(6 << 30)
 	defer func() {
